@@ -19,28 +19,61 @@ import vlib
 
 sys.path.insert(0, os.path.join(vlib.VERIF, "harness", "C14"))
 import c14gen  # noqa: E402
+import str2num_model  # noqa: E402
 
 ID = "C14"
 ALLOWED_AXIOMS = []
 TRUSTED_BASE = [
-    "coqc 8.16.1 kernel (vm_compute for refutation witnesses and finite type tables; no native_compute)",
+    "coqc 8.16.1 kernel (vm_compute for finite type tables; no native_compute)",
     "no axioms: every theorem of coq/C14/Properties.v is 'Closed under the global context' (the float theorems are stated inside a Section whose hypotheses appear as premises of the closed theorems)",
+    "CROSS-PROPERTY DEPENDENCY: coq/C14/ProofsBn.v imports sub-project coq/C17 (owner: property C17) through '-Q ../C17 C17' in coq/C14/_CoqProject - its Model/Model2/Model3/ProofsText/Properties (C17_literal_exact); checks/C14.py builds coq/C17 before coq/C14 (vlib.coq_build('C17')); in a scratch-repository run the copied coq/C17/Gen.v is the one generated from the live /repo (C14 does not run C17's translator), the agreement BN_BITS = BINT_BITS is re-proved by reflexivity on every build",
     "translator harness/C14/c14gen.py (regex scrape of typedefs.lua, bn.lua, strconv.nelua, string.nelua, cbuiltins.lua; LP64 widths assumed and re-checked against the compiler's primtypes on every run)",
-    "C semantics of integer constants: coq/C14/Model.v c_candidates/c_const_type/c_eval transcribe ISO C11 6.4.4.1 and 6.5.3.3; conversion to the target type is modular (gcc/clang)",
-    "bint arithmetic modulo 2^160 (property C17) is used as its specification [bn_wrap]",
+    "C semantics of integer constants: coq/C14/Model.v c_candidates/c_const_type/c_eval transcribe ISO C11 6.4.4.1 and 6.5.3.3 (the Python oracle c_eval_text is a second transcription by the same author); conversion to the target type is modular (gcc/clang)",
     "extraction: Require Extraction + ExtrOcamlBasic only; ocaml/zutil.ml + coq/C14/driver.ml; OCaml 4.13.1",
-    "harness/C14/ops.lua (fake emitter context around the real CEmitter), harness/C14/driver.nelua, probe program generator in checks/C14.py, gcc; Python fractions as the correctly-rounded reference",
-    "modelled rather than verified: bn.lua, analyzer.lua visitors.Number, cemitter.lua add_scalar_literal, strconv.nelua int2str/str2int mirrored by hand in coq/C14/Model.v; strconv.str2num/num2str (long double arithmetic) and the C compiler's strtod are NOT modelled: oracle only",
+    "harness/C14/ops.lua (fake emitter context around the real CEmitter), harness/C14/driver.nelua, harness/C14/numeral_oracle.lua (Lua's own tonumber as the oracle of the malformed-numeral stream), probe program generator in checks/C14.py, gcc; Python fractions as the correctly-rounded reference",
+    "harness/C14/str2num_model.py: an executable (Python, exact rationals) model of strconv.str2num's decimal branch in x87 extended precision, compared bit for bit with the compiled library on every decimal tonumber case of the normal range; it is what decides that a not-correctly-rounded result is the known double-rounding defect",
+    "modelled rather than verified: bn.lua (through C17), analyzer.lua visitors.Number, cemitter.lua add_scalar_literal, strconv.nelua int2str/str2int mirrored by hand in coq/C14/Model.v; strconv.num2str and the C compiler's strtod are NOT modelled: oracle only",
 ]
 ASSUMPTIONS = [
-    "LP64: int 32 bits, long and long long 64 bits (C_INT_BITS / C_LONG_BITS / C_LLONG_BITS in Gen.v)",
-    "float side, assumed and not proved (Section hypothesis of ProofsFloat.v): printing a binary64 (binary32) with 17 (9) significant digits and reading the text back with correct rounding is the identity",
+    "LP64: int 32 bits, long and long long 64 bits (C_INT_BITS / C_LONG_BITS / C_LLONG_BITS in Gen.v); x86-64 long double = x87 extended (64-bit significand) for the str2num model",
+    "float side, assumed and not proved (hypotheses of C14_todecsci_reads_back_partial): on the finite binary64 values, printing with 17 significant digits and reading the text back gives a number == to the original (Lua's ==: the two zeros are identified); that the code's test tonumber(s) ~= v decides that ==",
     "the host printf('%.Ng') and strtod used by the interpreter and by gcc are correctly rounded",
     "correspondence is differential testing, not a proof that model = code",
 ]
+THEOREM_CLASSES = {
+    # arithmetic facts about the three-line recurrence (hold for any digit list, valid or not)
+    "C14_reader_value_mod": "definitional", "C14_reader_eq_lua_mod64": "definitional",
+    "C14_reader_exact_partial": "corollary", "C14_reader_dec_complete": "corollary", "C14_reader_dec_float": "corollary",
+    "C14_reader_is_bn_from": "main",
+    "C14_literal_roundtrip_partial": "main",
+    "C14_int2str_str2int_roundtrip": "main",
+    "C14_str2int_sound_refuted": "refutation", "C14_str2int_sound_partial": "main",
+    "C14_todecsci_reads_back_partial": "main", "C14_todecsci_first_partial": "main",
+    "C14_print_dot0_eq_lua": "main", "C14_force_fract_not_int_like": "main",
+}
+MANIFEST_ENTRY = {
+    "text": "proof, partial: theorems for the INTEGER half only - the literal reader (a recurrence in wrapped big-number arithmetic, "
+            "shown equal to C17's verified limb-level model of bn.lua on valid digit strings, decimal overflow handed to the float "
+            "reader), the C literal printer against ISO C11 6.4.4.1 for every integral type up to 64 bits (128-bit types excluded), the "
+            "int2str/str2int round trip for int64 base 10, which strings str2int accepts (refuted as the code is: a known finding), the "
+            "'.0' rules of print and of emitted float literals, and the decision ladder of bn.todecsci with the 17-digit fact as a "
+            "PREMISE; every FLOAT clause (correct rounding of decimal and hexadecimal float literals, run-time tonumber / tostring / "
+            "%.14g, float32, the 17-digit round trip itself) rests on differential testing against exact rational arithmetic only",
+    "note": "imports sub-project coq/C17 (C17_literal_exact) via -Q ../C17 C17; LP64 and x87 long double assumed; Lua's own tonumber is "
+            "the oracle of the malformed-numeral stream; harness/C14/str2num_model.py is an executable model of the defective "
+            "str2num algorithm used to tell the known double rounding from any other divergence",
+    "technique": "machine-checked proof in Coq over executable models + extracted-model / compiler / compiled-library correspondence "
+                 "with exact-arithmetic oracles",
+}
 UNPROVED = [
-    "strconv.str2num / num2str (long double arithmetic): oracle only",
-    "hexadecimal float reader from(16,2,int,frac,exp) beyond 53 significant bits: oracle only",
+    "every float clause: correctly rounded reading of decimal float literals (fraction, exponent, suffix) and of hexadecimal float literals (from(16,2,int,frac,exp) is now only a fall-back behind Lua's tonumber), float emission, run-time tonumber / tostring / print of floats: oracle only (Python Fractions); the planned verified 'nearest_ok' checker (Flocq) and 'hexfloat_exact' do not exist - Flocq 4.1.0 is installed but a decimal->binary64 checker needs the half-ulp argument or Fdiv_core + binary_round_aux, not attempted",
+    "strconv.str2num: NOT correctly rounded (known finding); its algorithm is modelled only executably (harness/C14/str2num_model.py, bit-exact against the library on the normal range), with no theorem; strconv.num2str: oracle only",
+    "'17 digits and back is the identity' is a PREMISE of C14_todecsci_reads_back_partial, not a theorem; the exponent clean-up gsub('([Ee][+-])0+','%1') and the forced '.0' applied after the ladder are not covered by it (C14_force_fract_not_int_like covers the shape of the '.0' only); the float32 ladder (decimaldigits < 16, 9 digits) is not modelled",
+    "printing integers: only the int64 base-10 round trip through the model's own str2int is proved (it would also hold for a printer of x + 2^64); no theorem that the digits are the decimal expansion, none for uint2str, other bases, or print's cast chain %lli / %llu for the narrower types (tested)",
+    "literal typing (nl_literal_type mirrors visitors.Number): no theorem, tested against the real analyzer; no end-to-end theorem composing read, type, emit and c_eval; C14_literal_roundtrip_partial excludes int128 / uint128 and assumes LP64",
+    "str2int: prefix handling and wrap-around are modelled and tested, the only acceptance theorem is C14_str2int_sound_partial (refuted in full: known finding); decimal strings beyond int64 wrap where Lua gives a float: tested, documented, no theorem",
+    "C14_reader_value_mod / _eq_lua_mod64 are identities of modular arithmetic (classified definitional); Lua's own reader is not modelled - 'the value Lua's reader assigns' is the comment 'wrap64 of the mathematical value' checked by the read stream against Python integers",
+    "hard-coded in Model.v although it comes from the source: PRINT_BUF (sizeof(buff) in cbuiltins), the default literal type int64, the suffix table (scraped to Python only), the control flow of add_scalar_literal; the type of the emitted C constant is never probed with a C compiler (_Generic), only its value",
 ]
 
 MININT = -2**63
@@ -50,6 +83,11 @@ MAXINT = 2**63 - 1
 def gen(ctx):
     txt, info = c14gen.generate(vlib.repo_read)
     vlib.write_if_changed(os.path.join(vlib.coq_dir(ID), "Gen.v"), txt)
+    # coq/C14/ProofsBn.v imports sub-project C17 (-Q ../C17 C17 in _CoqProject): its compiled files must exist next to
+    # coq/C14 in the build root in use (vlib.coq_dir copies them for a scratch-repository run; a no-op when up to date)
+    ok, log = vlib.coq_build("C17")
+    if not ok:
+        raise RuntimeError("cannot build coq/C17, which coq/C14/ProofsBn.v imports: " + log[-800:])
     ctx.c14info = info
     slim = dict(info)
     slim.pop("suffix_table", None)
@@ -234,10 +272,16 @@ def correspond(ctx):
 
     allv = []
 
+    capped = {"oracle": 0, "model": 0}
+
     def viol(key, summary, detail, failing=True, kind="oracle"):
         allv.append("%s | %s" % (key, summary[:200]))
         problems["oracle" if failing else "model"] += 1
-        if problems["oracle" if failing else "model"] <= 6:
+        if key in STR2NUM_WITNESSES or key in STR2INT_WITNESSES:
+            ctx.violation(key, kind, summary, detail=detail, failing_input=failing)      # designated witnesses: always reported
+            return
+        capped["oracle" if failing else "model"] += 1
+        if capped["oracle" if failing else "model"] <= 8:
             ctx.violation(key, kind, summary, detail=detail, failing_input=failing)
 
     # ---------------------------------------------------------------- 0. platform table (LP64 tie)
@@ -342,7 +386,6 @@ def correspond(ctx):
         raise RuntimeError("compiler-half harness failed: lua rc=%s model rc=%s %s %s" % (rc1, rc2, ierr[-400:], merr[-400:]))
     evals += len(impl_lines)
     samples += impl_lines[:2] + impl_lines[len(impl_lines) // 2: len(impl_lines) // 2 + 2]
-    reader_witness_fails = False
     for line, mline, (stream, m), got, mod in zip(impl_lines, model_lines, meta, il, ml):
         kind = m[0]
         if kind == "read":
@@ -373,15 +416,6 @@ def correspond(ctx):
                 continue
             want = f64_bits(float(r))
             if not mm or int(mm.group(1), 16) != want:
-                if s != WITNESS_HEXFLOAT and s.startswith("0x") and hexfloat_wide(s) and mm and abs(int(mm.group(1), 16) - want) == 1 \
-                        and hexfloat_witness_fails(il, impl_lines):
-                    dist["attributed:read " + WITNESS_HEXFLOAT] = dist.get("attributed:read " + WITNESS_HEXFLOAT, 0) + 1
-                    continue
-                mexp = re.search(r"[pP]([+-]?\d+)$", s)
-                if s != WITNESS_HEXEXP and s.startswith("0x") and mexp and abs(int(mexp.group(1))) >= 1024 and mm \
-                        and (int(mm.group(1), 16) & 0x7fffffffffffffff) in (0, 0x7ff0000000000000) and hexexp_witness_fails(il, impl_lines):
-                    dist["attributed:read " + WITNESS_HEXEXP] = dist.get("attributed:read " + WITNESS_HEXEXP, 0) + 1
-                    continue
                 viol(line, "float literal reader: %s reads as %s, the correctly rounded binary64 is %016x" % (s, got, want),
                      {"case": line, "implementation": got, "oracle": "%016x" % want})
             else:
@@ -430,11 +464,8 @@ def correspond(ctx):
                     bad = None
                 if bad:
                     key = "emit %s %d %d" % (n, v, base)
-                    if is_known_emit_class(n, b, sg, v) and key != EMIT_WITNESS:
-                        dist["attributed:" + EMIT_WITNESS] = dist.get("attributed:" + EMIT_WITNESS, 0) + 1
-                    else:
-                        viol(key, "C literal for %s value %d (base %s): '%s' %s; expected %d" % (n, v, base or "none", got, bad, want),
-                             {"case": line, "implementation": got, "c_semantics": ce, "oracle": want, "model": mod})
+                    viol(key, "C literal for %s value %d (base %s): '%s' %s; expected %d" % (n, v, base or "none", got, bad, want),
+                         {"case": line, "implementation": got, "c_semantics": ce, "oracle": want, "model": mod})
             if mod != got:
                 viol("model-mismatch:emit", "model of add_scalar_literal differs on '%s': model %s, implementation %s" % (line, mod, got),
                      {"case": line, "model": mod, "implementation": got, "no_longer_checks": "correspondence stream C14/emit"}, failing=False, kind="correspondence")
@@ -485,7 +516,9 @@ def correspond(ctx):
             addrt("rt-int", "tostring_%s %d" % (nm, v), ("tostring", str(w)))
             if nm in ("i8", "u8", "i32"):
                 addrt("rt-int", "print_%s %d" % (nm, v), ("print", str(w)))
-    addrt("rt-float", WITNESS_STR2NUM, ("bits", f64_bits(1e126)))
+    for w in STR2NUM_WITNESSES:
+        wt = bytes.fromhex(w.split()[1][1:]).decode()
+        addrt("rt-float", w, ("bits", f64_bits(float(Fraction(wt)))))
     for line in corpus:
         w = line.split()
         if w[0] == "tostring_i64":
@@ -507,6 +540,27 @@ def correspond(ctx):
             r = round_binary(fr, 53, -1022, 1023)
             if r is not None:
                 addrt("rt-float", "tonumber " + X(s), ("bits", f64_bits(-0.0 if (r == 0 and s.startswith("-")) else float(r))))
+    # malformed and borderline numerals: Lua itself is the oracle (harness/C14/numeral_oracle.lua)
+    numeral_cases = []
+    alpha = [" ", "\t", "+", "-", "0", "x", "X", "b", "B", "1", "9", "a", "f", "g", "z", ".", "e"]
+    fixed = ["", " ", "-", "+", "0x", "0X", "0b", " - ", "  +  ", "-0x", "+0b", "- 1", "1 2", "0x ", " 0x1 ", "0b2", "0xg", "--1", "+-1", "1-", "0x-1",
+             "12", " 12 ", "-12", "+12", "0x10", "-0x10", "0b101", "1e1", "1.0", "9223372036854775807", "-9223372036854775808",
+             "0xffffffffffffffff", "0x10000000000000000", "007", "0x", "x", "\t7\n", "7\0", "\0"]
+    for t in fixed:
+        numeral_cases.append((t, None))
+    for _ in range(ctx.scale(500, 6000)):
+        numeral_cases.append(("".join(rng.choice(alpha) for _ in range(rng.randrange(0, 6))), None))
+    for t in ["", "-", "+", " ", "z", "Z", "10", "-10", "ff", "0x10", "1 ", " -1", "g", "7fffffffffffffff", "ffffffffffffffff", "1.0"]:
+        for b in (2, 8, 10, 16, 36):
+            numeral_cases.append((t, b))
+    olines = ["%s %s%s" % ("s" if b is None else "b", X(t), "" if b is None else " %d" % b) for t, b in numeral_cases]
+    rcn, on, en = vlib.run_lua(os.path.join(vlib.VERIF, "harness", ID, "numeral_oracle.lua"), input="\n".join(olines) + "\n", timeout=600)
+    onl = on.split("\n")
+    if rcn != 0 or len(onl) < len(olines):
+        raise RuntimeError("numeral oracle failed rc=%s: %s" % (rcn, en[-300:]))
+    for (t, b), lua_v in zip(numeral_cases, onl):
+        line = ("tointeger %s" % X(t)) if b is None else ("tointeger_b %s %d" % (X(t), b))
+        addrt("rt-numeral", line, ("numeral", lua_v, t, b))
     rc, out, err = vlib.sh([drv], input="\n".join(rt_lines) + "\n", timeout=3000)
     ol = out.split("\n")
     if rc != 0 or len(ol) < len(rt_lines):
@@ -519,13 +573,42 @@ def correspond(ctx):
         a = line.split()
         if a[0] == "tostring_i64": mlines.append("int2str " + a[1])
         elif a[0] == "tostring_u64": mlines.append("uint2str " + a[1])
-        elif a[0] == "tointeger": mlines.append("str2int 0 " + a[1][1:])
+        elif a[0] == "tointeger": mlines.append("str2int 0 " + (a[1][1:] or "e"))
+        elif a[0] == "tointeger_b": mlines.append("str2int %s %s" % (a[2], a[1][1:] or "e"))
         else: mlines.append("skip")
     rc, mo, me = vlib.sh([model], input="\n".join(mlines) + "\n", timeout=3000)
     mol = mo.split("\n")
     for line, m, got, mod, ml_ in zip(rt_lines, rt_meta, ol, mol, mlines):
         k = m[0]
         ok = True
+        if k == "numeral":
+            _, lua_v, t, b = m
+            ext = b is None and re.match(r"^[+-]?0[bB][01]+$", t.strip(" \t\n\v\f\r"))
+            if ext:
+                want = str(wrap_T(64, True, int(t.strip(" \t\n\v\f\r"), 2)))       # documented extension: binary prefix
+            elif lua_v == "nil":
+                want = "!sig6"                                           # Lua has no integer for it: the port must stop
+            else:
+                want = lua_v
+            mwant = "fail" if got == "!sig6" else got
+            if got != want:
+                if got == "!sig6":
+                    dist["numeral:port-stops-where-lua-has-an-integer"] = dist.get("numeral:port-stops-where-lua-has-an-integer", 0) + 1
+                elif line not in STR2INT_WITNESSES and lua_v == "nil" and mod == got and numeral_has_no_digit(t, b) \
+                        and any(l == STR2INT_WITNESSES[0] and g != "!sig6" for l, g in zip(rt_lines, ol)):
+                    # Lua has no integer, the port returns the value the extracted model of the UNCHANGED code returns, and the
+                    # digit loop of strconv.str2int consumed nothing: the known missing "at least one digit" test.  Designated
+                    # witnesses are reported under their exact keys; these are counted; anything else is a VIOLATION
+                    dist["predicted-by-model:strconv.str2int:no-digit-check(string)"] = dist.get("predicted-by-model:strconv.str2int:no-digit-check(string)", 0) + 1
+                else:
+                    viol(line, "run time: tointeger(%r%s) gives %s where Lua gives %s" % (t, "" if b is None else ", %d" % b, got, lua_v),
+                         {"case": line, "implementation": got, "oracle": lua_v, "model": mod})
+            else:
+                nontrivial.add(line)
+            if mod != mwant:
+                viol("model-mismatch:str2int", "model of strconv.str2int differs on '%s': model %s, implementation %s" % (line, mod, got),
+                     {"case": line, "model": mod, "implementation": got, "no_longer_checks": "correspondence stream C14/str2int"}, failing=False, kind="correspondence")
+            continue
         if k == "tostring":
             want = X(m[1])
         elif k == "print":
@@ -546,10 +629,23 @@ def correspond(ctx):
             t = "%.14g" % m[1]
             if re.match(r"^-?\d+$", t): t += ".0"
             want = X(t)
+        pred = None
+        if k == "bits" and line.startswith("tonumber "):
+            # model voice of str2num (harness/C14/str2num_model.py: the algorithm of the code in x87 arithmetic), normal range only
+            txt = bytes.fromhex(line.split()[1][1:]).decode()
+            if 0x0020000000000000 <= (m[1] & 0x7fffffffffffffff) <= 0x7fd0000000000000:
+                pv = str2num_model.str2num_x87(txt)
+                pred = "f%016x" % f64_bits(float(pv))
+                dist["str2num-model-voice"] = dist.get("str2num-model-voice", 0) + 1
+                if pred != got:
+                    viol("model-mismatch:str2num", "model of strconv.str2num (x87 long double) differs on '%s' (%s): model %s, implementation %s" % (line, txt, pred, got),
+                         {"case": line, "model": pred, "implementation": got, "no_longer_checks": "correspondence stream C14/str2num"}, failing=False, kind="correspondence")
         if got != want:
-            if k == "bits" and line.startswith("tonumber ") and line != WITNESS_STR2NUM and re.match(r"^f[0-9a-f]{16}$", got) \
-                    and abs(int(got[1:], 16) - m[1]) == 1 and str2num_witness_fails(rt_lines, ol):
-                dist["attributed:" + WITNESS_STR2NUM] = dist.get("attributed:" + WITNESS_STR2NUM, 0) + 1
+            if pred is not None and pred == got and line not in STR2NUM_WITNESSES and str2num_witness_fails(rt_lines, ol):
+                # not correctly rounded, and exactly the value the model of the UNCHANGED code computes: the known double rounding
+                # of strconv.str2num (site: decimal scale loop, operands: long double digits x powers of ten).  The designated
+                # witnesses are reported under their exact keys; these are counted, anything the model does not predict is a VIOLATION
+                dist["predicted-by-model:strconv.str2num:decimal-scale(long double)"] = dist.get("predicted-by-model:strconv.str2num:decimal-scale(long double)", 0) + 1
                 continue
             viol(line, "run time: %s gives %s, expected %s" % (line, got, want), {"case": line, "implementation": got, "oracle": want})
         else:
@@ -579,10 +675,14 @@ def correspond(ctx):
     }
 
 
-EMIT_WITNESS = "emit int64 18446744073709551621 16"
-WITNESS_HEXFLOAT = "0x1.4b7726200377363c577p-8"
-WITNESS_HEXEXP = "0x1p-1030"
-WITNESS_STR2NUM = "tonumber x31652b313236"          # tonumber("1e+126")
+EMIT_WITNESS = "emit int64 18446744073709551621 16"          # repaired (59c538f): replayed, must pass
+WITNESS_HEXFLOAT = "0x1.4b7726200377363c577p-8"               # repaired (1cb4f5b): replayed, must pass
+WITNESS_HEXEXP = "0x1p-1030"                                  # repaired: replayed, must pass
+# OPEN finding, strconv.str2num double rounding: designated exact witnesses (known_findings/C14.json keys)
+STR2NUM_WITNESSES = ["tonumber " + X(t) for t in ("1e+126", "32e+126", "10e+125", "3828199250360920e-128")]
+WITNESS_STR2NUM = STR2NUM_WITNESSES[0]
+# OPEN finding, strconv.str2int accepts numerals without a digit: designated exact witnesses
+STR2INT_WITNESSES = ["tointeger x2d", "tointeger x2b", "tointeger x3078", "tointeger x3062", "tointeger x202d20", "tointeger_b x2d 16"]
 
 
 def str2num_witness_fails(rt_lines, ol):
@@ -592,43 +692,24 @@ def str2num_witness_fails(rt_lines, ol):
     return False
 
 
-def hexexp_witness_fails(il, impl_lines):
-    for l, g in zip(impl_lines, il):
-        if l == "read " + WITNESS_HEXEXP:
-            return ":0000000000000000 " in g
-    return False
-
-
-def hexfloat_wide(s):
-    """more than 53 significant bits in the hexadecimal significand"""
-    m = re.match(r"^0[xX]([0-9a-fA-F]*)\.?([0-9a-fA-F]*)", s)
-    n = int((m.group(1) + m.group(2)) or "0", 16)
-    while n and n % 2 == 0:
-        n //= 2
-    return n.bit_length() > 53
-
-
-def hexfloat_witness_fails(il, impl_lines):
-    for l, g in zip(impl_lines, il):
-        if l == "read " + WITNESS_HEXFLOAT:
-            return "3f74b77262003773" not in g
-    return False
-
-
-def is_known_emit_class(name, bits, signed, v):
-    """IntegralType:wrap_value is wrong beyond one wrap on the signed side (DESIGN section 5, C02): its
-    result is outside the type; for 64-bit types the emitted decimal then has no C type"""
-    if not (signed and bits == 64) or tmin(bits, signed) <= v <= tmax(bits, signed):
-        return False
-    wv = -((-v) % 2**bits) if v > tmax(bits, signed) else v % 2**bits
-    return not (tmin(bits, signed) <= wv <= tmax(bits, signed))
-
-
-def reader_witness_fails_pre(il, impl_lines, witness):
-    for l, g in zip(impl_lines, il):
-        if l == "read " + witness:
-            return g.split(" ")[0] != witness
-    return False
+def numeral_has_no_digit(t, base):
+    """the digit loop of str2int consumes nothing: after blanks, one sign and (base detection only) a 0x/0b prefix followed by
+    at least one more character, the next character is not a digit of the base"""
+    u = t.lstrip(" \t\n\v\f\r")
+    if u[:1] in ("+", "-"):
+        u = u[1:]
+    b = base
+    if base is None:
+        b = 10
+        if len(u) >= 2 and u[0] == "0" and u[1] in "xXbB":
+            b = 16 if u[1] in "xX" else 2
+            u = u[2:]
+    if not u:
+        return True
+    try:
+        return int(u[0], 36) >= b
+    except ValueError:
+        return True
 
 
 def build_driver(ctx):
